@@ -408,7 +408,7 @@ func syncRule(c *eng.Ctx) {
 
 	// the loop over fq.consumerGroups
 	var next *ssa.Next
-	for _, b := range f.Blocks {
+	for _, b := range eng.BlocksT(f) {
 		for _, in := range b.Instrs {
 			if n, ok := in.(*ssa.Next); ok {
 				if r, ok := n.Iter.(*ssa.Range); ok && strings.HasSuffix(p.Desc(r.X), ".consumerGroups") {
@@ -444,7 +444,7 @@ func syncRule(c *eng.Ctx) {
 			"cannot prove "+p.Desc(e)+" <= "+p.Desc(ph))
 		// find the group's ack read in the loop body
 		var ts *ssa.Call
-		for _, b := range f.Blocks {
+		for _, b := range eng.BlocksT(f) {
 			if !reachesBlock(h, b) || !reachesBlock(b, h) {
 				continue
 			}
